@@ -10,6 +10,7 @@ import (
 	"strings"
 
 	"github.com/bytedance/sonic"
+	"github.com/bytedance/sonic/verifx"
 
 	"verif/harness/internal/out"
 	"verif/harness/internal/rng"
@@ -26,10 +27,11 @@ import (
 //	P <case> <pv> ok|err <program>                 IR of the case's type from the real compiler (-ir)
 //	R <case> <flags> ok <hex>|err <class>          Marshal under the option word (std word: through sonic.ConfigStd)
 //	O <case> ok <hex>|err <class> <agree>          encoding/json, and whether R(std word) agrees with it (-oracle)
+//	Q <case> <omitnull>/<inline>/<recursive> ok <hex>|err <class>   Marshal after Pretouch with compile options (-pretouch)
 //	T <case> <flags> <valid> <rt-sonic> <rt-std>   well-formedness and round trip of a successful R (-rt): 1 ok, 0 failed, - not applicable
 //
 // With -model FILE also the request file for the Coq model (D/P/E/S lines).
-func Main(defFlags string, defRT, defIR, defOracle bool) {
+func Main(defFlags string, defRT, defIR, defOracle bool, defPretouch int) {
 	seed := flag.Uint64("seed", 1, "")
 	n := flag.Int("n", 1000, "")
 	outp := flag.String("out", "/dev/stdout", "")
@@ -40,6 +42,7 @@ func Main(defFlags string, defRT, defIR, defOracle bool) {
 	rt := flag.Bool("rt", defRT, "round trip + well-formedness lines")
 	ir := flag.Bool("ir", defIR, "IR lines")
 	oracle := flag.Bool("oracle", defOracle, "encoding/json lines")
+	pretouch := flag.Int("pretouch", defPretouch, "Q lines: Pretouch with compile options, then Marshal (option sets per random case; the corpus gets 6)")
 	flag.Parse()
 
 	w := out.Create(*outp)
@@ -89,6 +92,27 @@ func Main(defFlags string, defRT, defIR, defOracle bool) {
 					mw.Line("P", c.ID, b, "3", "0", td)
 				}
 			}
+		}
+		if *pretouch > 0 && c.V.IsValid() {
+			// Q <case> <omitnull>/<inline>/<recursive> result: the program cache is filled by Pretouch under compile options
+			r := rng.New(*seed ^ 0x9E70).Fork(uint64(i) + 1)
+			k := *pretouch
+			if i < len(wit) {
+				k = 6
+			}
+			for j := 0; j < k; j++ {
+				on, inl, rec := j%2 == 1, 1+(j/2)%3, []int{3, 2, 1, 0, 1, 2}[j%6]
+				if i >= len(wit) {
+					on, inl, rec = r.Bool(), 1+r.Intn(3), r.Intn(4)
+				}
+				q := Pretouched(c, on, inl, rec)
+				b := "0"
+				if on {
+					b = "1"
+				}
+				w.Line("Q", c.ID, fmt.Sprintf("%s/%d/%d", b, inl, rec), q.Field())
+			}
+			verifx.EncResetProgramCache()
 		}
 		for _, fw := range flagWords(*fl, *seed, i) {
 			var r Result
